@@ -5,7 +5,7 @@ bound = {
  "C01": "13 raw representations, lists <= 2, maps <= 2, objects <= 3 properties, one-of 2 members (int/string keys, inlined or not), 1-3 byte UTF-8 strings, treat-empty-as-default with and without presence rules, full-width scalars",
  "C02": "all nil-combinations of bounds, full-width values, digit strings of 1..3 digits (+sign), strings as Len, multi-byte strings for rune counting, unit strings (PB+TB, 4 digits each) on an int schema",
  "C03": "N = 2 properties, rule slots <= 2 per list, all supplied subsets, defaults, disabled (also under the shorthand), one-of members under zero keys",
- "C04": "27 schema kinds x 45 data shapes x 4 operations; nested once under list/map/object/any",
+ "C04": "29 schema kinds (incl. int/float with units) x 45 data shapes (strings incl. blank and unit strings) x 4 operations, each followed by a second call; nested once under list/map/object/any",
  "C05": "<= 2 Executes (serial, back to back, overlapping, finishing together), 1 signal, v1 framing, 1 preemption (short and long pause)",
  "C06": "2 Executes + Close, signals both ways (0..2 from the peer, 1 to the step), 1..3 peer signals without a listener, errors without run id (alone / while busy), 1 preemption",
  "C07": "12 message kinds x 2 messages x 4 step behaviours x 2 endings; two-run conversation; end right after 1..2 work-starts; end of input while a step runs",
